@@ -10,7 +10,7 @@ use std::os::unix::net::{UnixListener, UnixStream};
 use std::process::Child;
 
 #[cfg(unix)]
-use libc::{close, dup2, getpid};
+use libc::{close, dup2};
 use tempfile::TempDir;
 #[cfg(windows)]
 use uds_windows::UnixStream;
@@ -69,12 +69,12 @@ pub fn varlink_exec<S: ?Sized + AsRef<str>>(
 pub fn varlink_exec<S: ?Sized + AsRef<str>>(
     address: &S,
 ) -> Result<(Child, String, Option<TempDir>)> {
-    use std::env;
     use std::os::unix::process::CommandExt;
     use std::process::Command;
     use tempfile::tempdir;
 
-    let executable = String::from("exec ") + address.as_ref();
+    // the shell execs the service, so `$$` is the pid the service will have
+    let executable = String::from("export LISTEN_PID=$$; exec ") + address.as_ref();
 
     let dir = tempdir().map_err(map_context!())?;
     let file_path = dir.path().join("varlink-socket");
@@ -86,18 +86,21 @@ pub fn varlink_exec<S: ?Sized + AsRef<str>>(
         Command::new("sh")
             .arg("-c")
             .arg(executable)
+            // the environment is set up here and not with env::set_var() after the fork: that
+            // needs the environment lock, which the forking thread may be holding
+            .env("VARLINK_ADDRESS", format!("unix:{}", file_path.display()))
+            .env("LISTEN_FDS", "1")
+            .env("LISTEN_FDNAMES", "varlink")
             .pre_exec({
-                let file_path = file_path.clone();
                 move || {
                     dup2(2, 1);
                     if fd != 3 {
                         dup2(fd, 3);
                         close(fd);
+                    } else {
+                        // the listener already is descriptor 3: it only has to survive the exec
+                        libc::fcntl(3, libc::F_SETFD, 0);
                     }
-                    env::set_var("VARLINK_ADDRESS", format!("unix:{}", file_path.display()));
-                    env::set_var("LISTEN_FDS", "1");
-                    env::set_var("LISTEN_FDNAMES", "varlink");
-                    env::set_var("LISTEN_PID", format!("{}", getpid()));
                     Ok(())
                 }
             })
